@@ -585,7 +585,10 @@ def run_case_check(ctx, spec):
         if o.get("ok") is False:
             violations.append({"what": "%s: %s" % (c.get("k"), o.get("why")), "replay": {"case": c, "impl": o},
                                "fingerprint": spec.fingerprint(c, o), "found_input": True})
-    impl_bad = any(v.get("found_input") for v in violations)
+    # violations that are listed open known findings do not count as "a failing input was found" for the purpose of
+    # deciding whether a model/implementation disagreement still has to be reported on its own
+    _known_fps = {k.get("fingerprint") for k in load_known(ctx.pid) if k.get("status") == "open"}
+    impl_bad = any(v.get("found_input") and not (v.get("fingerprint") and v.get("fingerprint") in _known_fps) for v in violations)
     broken = []
     if not proof_ok:
         broken.append("proof obligation (%s)" % pinfo.get("broken_at", pinfo.get("forbidden", "assumptions")))
